@@ -21,6 +21,7 @@ case "$pkgline" in
   main) dir=MAIN ;;
   *) echo "unknown package $pkgline"; exit 3 ;;
 esac
+tags=""; grep -q '^//go:build verif' "$demo" && tags="-tags verif"   # a demo may pin a schedule through the library's hook
 tests=$(grep -oE '^func (Test[A-Za-z0-9_]+)' "$demo" | awk '{print $2}' | paste -sd'|')
 cd "$wt"
 git apply "$patch" || { echo "RESULT $name: patch does not apply"; exit 1; }
@@ -28,10 +29,10 @@ suite=ok
 go build ./... >/tmp/confirm/$name.suite 2>&1 && go test -vet=off -count=1 ./... >>/tmp/confirm/$name.suite 2>&1 || suite=FAIL
 cp "$demo" "$wt/$dir/zz_demo_test.go"
 with=pass
-go test -vet=off -count=1 -run "^($tests)\$" ./$dir >/tmp/confirm/$name.with 2>&1 || with=fail
+go test $tags -vet=off -count=1 -run "^($tests)\$" ./$dir >/tmp/confirm/$name.with 2>&1 || with=fail
 git checkout -q -- . 
 without=pass
-go test -vet=off -count=1 -run "^($tests)\$" ./$dir >/tmp/confirm/$name.without 2>&1 || without=fail
+go test $tags -vet=off -count=1 -run "^($tests)\$" ./$dir >/tmp/confirm/$name.without 2>&1 || without=fail
 echo "RESULT $name: suite_with_patch=$suite demo_with_patch=$with demo_without_patch=$without"
 if [ "$suite" = ok ] && [ "$with" = fail ] && [ "$without" = pass ]; then
   d=/verif/seeded/$name; mkdir -p "$d"
